@@ -18,7 +18,7 @@ from .sx_spec import SpecMixin, parse_expr
 from .sx_stmt import StmtMixin
 from .sx_str import StrMixin
 from .theory import L0, L1, Bool, Int, Ref
-from .values import (EXC_PARENTS, F, FAll, FT, Sym, VCtxMgr, VExc, VFunc, VList, VModule, VObj, VOpt,
+from .values import (EXC_PARENTS, F, FAll, FT, Sym, VCtxMgr, VExc, VFunc, VList, VModule, VObj, VOpaque, VOpt,
                      VSet, VUnique)
 
 import builtins as _bi
@@ -135,6 +135,8 @@ class Unit:
             return getattr(_bi, name)
         if name in ("cast",):
             return VFunc("cast", "builtin", lambda ex, a, k: a[1])
+        if self.contract.unknown_calls == "effect" and hasattr(_bi, name):
+            return VFunc(name, "unmodelled")
         raise GenError("unresolved name %s in %s" % (name, self.contract.target))
 
     def live_value(self, ex, v, name):
@@ -195,6 +197,8 @@ class Unit:
     def ref_attr(self, ex, base: Sym, attr):
         key = "%s.%s" % (base.cls, attr)
         spec = self.contract.calls.get(key)
+        if spec is None and self.contract.unknown_calls == "effect":
+            return VFunc(key, "unmodelled")
         if spec is None:
             raise GenError("attribute %s of ref %s has no spec (%s)" % (attr, base.cls, key))
         if spec.kind == "attr":
@@ -213,6 +217,8 @@ class Unit:
     def ref_method(self, ex, recv, name, args, kwargs, node):
         key = "%s.%s" % (recv.cls, name)
         spec = self.contract.calls.get(key)
+        if spec is None and self.contract.unknown_calls == "effect":
+            return ex.unmodelled(key, [recv] + list(args), kwargs)
         if spec is None:
             raise GenError("method %s has no callee spec" % key)
         return self.call_callee(ex, key, spec, [recv] + list(args), kwargs, node, method=True)
@@ -354,6 +360,8 @@ class Unit:
         return names, defaults, None
 
     def call_callee(self, ex, name, spec, args, kwargs, node, method=False, pure=False):
+        if spec is None and self.contract.unknown_calls == "effect":
+            return ex.unmodelled(name, args, kwargs)
         if spec is None:
             raise GenError("call to %s has no callee spec in contract %s (line %s)" % (
                 name, self.contract.cid, getattr(node, "lineno", "?")))
